@@ -30,3 +30,14 @@ Arg -> Arg :
   | id
   | ('(' Arg ')' -> Paren)
 ;
+
+%%
+
+{{define "onAfterParser"}}
+// Node flags are supplied by the user of the generated code.
+const (
+	InCall NodeFlags = 1 << iota
+	Bare
+	Const
+)
+{{end}}
